@@ -85,7 +85,7 @@ pub fn run(ctx: &mut Ctx) {
             // every backend's rendering also goes to the Lean model
             let r = crate::c01::render(&real, b);
             let sq = recipe.clone();
-            ctx.case_norm(format!("stmt {} {recipe}", b.name()), crate::c01::expect_line(&r), true, &move || format!("{} {}", b.name(), sq), Box::new(|m: &str| match m.rfind(" safe:") { Some(i) => m[..i].to_string(), None => m.to_string() }));
+            ctx.case_norm(format!("stmt {} {recipe}", b.name()), crate::c01::expect_line(&r), true, &move || format!("{} {}", b.name(), sq), crate::c01::strip_flags(false));
             let Some(r) = r else { ctx.oracle_fail("a portable statement cannot be rendered (the crate panics)", serde_json::json!({"backend": b.name(), "recipe": recipe})); ok = false; continue };
             for (mode, text, vals) in [("inline", &r.inline, vec![]), ("param", &r.sql, r.values.iter().map(bind_json).collect::<Vec<_>>())] {
                 let sql = if b == B::Sqlite { Ok(text.clone()) } else { translit(b, text) };
